@@ -47,8 +47,10 @@ Definition scase_spec_ok (c : scase) : bool :=
     (a_next a' =? sc_last c)
   else true.
 
+(* ids first: a duplicate identifier is decided without any search (and implied by
+   lin_check = true: DirectoryProofs.lin_ids_distinct) *)
 Definition hcase_ok (c : hcase) : bool :=
-  hist_wf (hc_ops c) && lin_check astep_r dres_eqb ainit (hc_ops c).
+  if hist_wf (hc_ops c) && nodupb (hist_ids (hc_ops c)) then lin_check astep_r dres_eqb ainit (hc_ops c) else false.
 
 Fixpoint bad_idx {A} (f : A -> bool) (l : list A) (i : nat) : list nat :=
   match l with
